@@ -90,6 +90,17 @@ CHECKS = {
         design_ref="DESIGN.md §2 C12, §3 F3",
         note="An anchor validator that never leaves keeps the committee non-empty (a chain whose validators all left cannot certify blocks; that is outside the wedge notion). Double-sign slashes are C14's workload.",
     ),
+    "C14": dict(
+        engine="E-NODE",
+        category="exploration",
+        technique="runtime monitor with a signature ledger: every consensus signature made in the run is recorded; forged and genuine double-sign evidence goes through the real ProcessDSE / AddDSE / ProduceProposal / ValidateProposal / FSM execution and every implication and stake change is judged against the ledger",
+        text="Seeded full-node chains (protocol versions 1 and 2, governance changing the slash parameters) with two equivocating validator keys; per block ~10 evidence objects from 12 forge "
+             "families (genuine, same payload / two bitmaps, cross-view, re-labelled header, bitmap claiming honest signers, grafted honest signature, election-phase pair, other chain, other "
+             "committee layout, genuine but expired, replays) plus proposer-claimed slash lists the evidence does not justify; committed slash lists are executed and per-validator stake deltas "
+             "are bounded by the listed double signs and the per-committee cap; a (validator, root height) may be listed once.",
+        design_ref="DESIGN.md §2 C14",
+        note="BLS aggregate signatures trusted. The harness root-chain manager answers IsValidDoubleSigner as cmd/rpc/query.go does. The cap is enforced by canopy from protocol version 2 on and judged only there. Evidence built by a running replica from partial certificates (GetLocalDSE) is not driven.",
+    ),
     "C15": dict(
         engine="E-BFT",
         category="exploration",
@@ -140,6 +151,26 @@ CHECKS = {
              "transactions; every proposal must be accepted by the peer. Afterwards every height is served by LoadCertificate and re-validated on fresh nodes from genesis.",
         design_ref="DESIGN.md §2 C11",
         note="Both nodes are in the same governance mode. Process-wide caches are purged when control passes between nodes of one test binary.",
+    ),
+    "C18": dict(
+        engine="E-P2P",
+        category="exploration",
+        technique="runtime monitor over recorded send/deliver event logs of real p2p.MultiConn endpoints (exactly-once, whole-message, per-topic order, sender identity) under mesh traffic, hostile raw peers, teardown mid-traffic and full queues; the same workload under the race detector in child processes",
+        text="Real P2P/MultiConn endpoints over in-memory pipes: every message carries a unique id; the monitor checks that each delivered message was sent, is delivered whole and at most once, in per-(connection, topic) "
+             "order, with the authenticated sender; hostile raw peers send malformed / oversize / undefined-topic / interleaved packets; connections are torn down mid-traffic and queues are filled. "
+             "A second build of the same workload runs under -race; report blocks are de-duplicated by the pair of top canopy frames.",
+        design_ref="DESIGN.md §2 C18",
+        note="In-memory pipes, not kernel TCP. Losses are permitted only where the code documents them (inbox full, send refused). The 256 MB cap is probed but on a loaded machine the heartbeat timeout may end the script first (reported in the evidence).",
+    ),
+    "C19": dict(
+        engine="E-CODEC",
+        category="exploration",
+        technique="runtime monitors: digest injectivity over generated message pairs (one-field / boundary-shift / swap) against real sign-bytes and hash functions; key-constructor and prefix-range behaviour against real stores; hostile wire inputs to every decoder and first-touch handler in crash-isolated child processes",
+        text="(1) For all 16 transaction types, votes, certificates and evidence: pairs differing in one consumed field must differ in sign bytes / hash. (2) Keys from every fsm/store key constructor are "
+             "checked for collisions and prefix-range escapes, behaviourally through VersionedStore / Txn / Store / Indexer. (3) ~26k (quick) to 2M (thorough) wire mutations of valid messages go through "
+             "lib.Unmarshal, CheckBasic/Check, CheckTx, bft.HandleMessage etc. in child processes; a panic or crash in canopy code is a violation; unknown fields and size caps are probed.",
+        design_ref="DESIGN.md §2 C19",
+        note="SHA-256 trusted. The list of fields deliberately outside the sign bytes is read from the code and stated in the evidence. p2p receive loop and controller listeners are covered by C18 / node-engine checks, not here.",
     ),
     "C08": dict(
         engine="E-STORE",
@@ -212,7 +243,7 @@ def main():
 
 NA = {}
 HOOK_COMMITS = ["bffe7c1", "d8cae5e", "19a33f0"]
-FIX_COMMITS = ["ac69fcc", "f14e602", "7290d0d", "11d5f11", "edf91ea", "ab4ad20", "ff68f31", "db26c33", "683ece4", "876170d", "cff6cea"]
+FIX_COMMITS = ["ac69fcc", "f14e602", "7290d0d", "11d5f11", "edf91ea", "ab4ad20", "ff68f31", "db26c33", "683ece4", "876170d", "cff6cea", "c441972", "a61c99a", "3e9c947", "7ee8ccd", "d4a8335"]
 
 if __name__ == "__main__":
     main()
